@@ -286,6 +286,8 @@ static int c07_main(int argc,char **argv){
       c7_table(); c7_headers();
     }else if(!strcmp(op,"ref")&&n>=2){
       int hs=atoi(tok[1])?1:0; c7_build_ref(hs); printf("ref hs=%d links=%d\n",hs,c7_refn[hs]);
+    }else if(!strcmp(op,"live")){
+      vf_live("");
     }else if(!strcmp(op,"refpk")&&n>=2){
       int hs=atoi(tok[1])?1:0,li; if(!c7_nlinks)printf("refpk none\n"); for(li=0;li<c7_nlinks;li++)c7_refpk(hs,li);
     }else if((!strcmp(op,"open")||!strcmp(op,"test"))&&n>=4){
@@ -337,7 +339,7 @@ static int c07_main(int argc,char **argv){
         printf("readi rc=%s link=%d t0=%lld t1=%lld\n",ovname(r),r>0?bs:-1,(long long)t0,(long long)ov_pcm_tell(vf)); free(buf);
       }else if(!strncmp(op,"rawseek",7)||!strncmp(op,"pcmseekpage",11)||!strncmp(op,"pcmseek",7)){
         ogg_int64_t pos=atoll(tok[2]); int lap=(strstr(op,"lap")!=NULL); int rc;
-        ogg_int64_t oldpos=ov_pcm_tell(vf); int oldlink=vf->ready_state>=STREAMSET?vf->current_link:-1; int ohs=ov_halfrate_p(vf)>0;
+        ogg_int64_t oldpos=ov_pcm_tell(vf); int oldlink=(vf->seekable&&vf->ready_state>=STREAMSET)?vf->current_link:-1; int ohs=ov_halfrate_p(vf)>0;
         int on=(oldlink>=0&&vf->vi)?(vorbis_info_blocksize(vf->vi+oldlink,0)>>(1+ohs)):0; int och=(oldlink>=0&&vf->vi)?vf->vi[oldlink].channels:0;
         int pend=H->lap_valid||H->stale; /* the audio at the old position is itself still cross-faded, or the decoder is ahead of the position (after ov_crosslap) */
         H->lap_valid=0;
@@ -350,7 +352,7 @@ static int c07_main(int argc,char **argv){
         printf("%s rc=%s tell=%lld state=%d link=%d\n",op,ovname(rc),(long long)ov_pcm_tell(vf),vf->ready_state,vf->ready_state>=STREAMSET?vf->current_link:-1);
       }else if(!strncmp(op,"timeseek",8)){
         double t=atof(tok[2])/1000.; int lap=(strstr(op,"lap")!=NULL); int page=(strstr(op,"page")!=NULL); int rc;
-        ogg_int64_t oldpos=ov_pcm_tell(vf); int oldlink=vf->ready_state>=STREAMSET?vf->current_link:-1; int ohs=ov_halfrate_p(vf)>0;
+        ogg_int64_t oldpos=ov_pcm_tell(vf); int oldlink=(vf->seekable&&vf->ready_state>=STREAMSET)?vf->current_link:-1; int ohs=ov_halfrate_p(vf)>0;
         int on=(oldlink>=0&&vf->vi)?(vorbis_info_blocksize(vf->vi+oldlink,0)>>(1+ohs)):0; int och=(oldlink>=0&&vf->vi)?vf->vi[oldlink].channels:0;
         int pend=H->lap_valid||H->stale; /* the audio at the old position is itself still cross-faded, or the decoder is ahead of the position (after ov_crosslap) */
         H->lap_valid=0;
@@ -367,7 +369,7 @@ static int c07_main(int argc,char **argv){
         rc=H2->open?ov_crosslap(vf,&H2->vf):-9999;
         { int pend=H->lap_valid||(H2->open&&H2->lap_valid); if(H2->open){ H2->lap_valid=0; H2->lap_oldunk=pend; } }
         H->lap_valid=0; if(rc==0)H->stale=1; /* its lapping audio has been consumed without the position moving: see the C19 notes */
-        if(rc==0&&H2!=H&&vf->ready_state>=STREAMSET&&H2->vf.ready_state>=STREAMSET&&h1==(ov_halfrate_p(&H2->vf)>0)){
+        if(rc==0&&H2!=H&&vf->seekable&&H2->vf.seekable&&vf->ready_state>=STREAMSET&&H2->vf.ready_state>=STREAMSET&&h1==(ov_halfrate_p(&H2->vf)>0)){
           int on=vorbis_info_blocksize(vf->vi+vf->current_link,0)>>(1+h1), nn=vorbis_info_blocksize(H2->vf.vi+H2->vf.current_link,0)>>(1+h1);
           H2->lap_valid=1; H2->lap_oldpos=oldpos; H2->lap_oldlink=vf->current_link; H2->lap_newpos=ov_pcm_tell(&H2->vf); H2->lap_n=on<nn?on:nn; H2->lap_ch1=vf->vi[vf->current_link].channels; H2->lap_hs=h1; H2->lap_newlink=H2->vf.current_link; H2->lap_k=vorbis_synthesis_pcmout(&H2->vf.vd,NULL); }
         printf("crosslap rc=%s\n",ovname(rc));
